@@ -8,6 +8,7 @@ import (
 	"reflect"
 	"strings"
 	"time"
+	"unicode/utf8"
 
 	ap "github.com/go-ap/activitypub"
 )
@@ -335,6 +336,9 @@ func ItemShapes() []Shape {
 		itemShape("list[obj,link]", "list", false, func(g *Gen) ap.Item { return ap.ItemCollection{obj("Actor", g), obj("Link", g)} }),
 		itemShape("list[obj,obj]", "list", false, func(g *Gen) ap.Item { return ap.ItemCollection{obj("Object", g), obj("Activity", g)} }),
 		itemShape("iris[2]", "list", false, func(g *Gen) ap.Item { return ap.IRIs{g.IRI(), g.IRI()} }),
+		itemShape("list[17]", "list-long", false, func(g *Gen) ap.Item { return LongList(g, 17) }),
+		itemShape("list[33]", "list-long", false, func(g *Gen) ap.Item { return LongList(g, 33) }),
+		itemShape("list[65]", "list-long", false, func(g *Gen) ap.Item { return LongList(g, 65) }),
 	)
 	return out
 }
@@ -358,6 +362,9 @@ func ItemsShapes() []Shape {
 		itemsShape("[iri,obj,iri]", false, func(g *Gen) ap.ItemCollection {
 			return ap.ItemCollection{g.IRI(), obj("Question", g), g.IRI()}
 		}),
+		itemsShape("[17]", false, func(g *Gen) ap.ItemCollection { return LongList(g, 17) }),
+		itemsShape("[33]", false, func(g *Gen) ap.ItemCollection { return LongList(g, 33) }),
+		itemsShape("[65]", false, func(g *Gen) ap.ItemCollection { return LongList(g, 65) }),
 	}
 }
 
@@ -378,12 +385,18 @@ func Shapes(k Kind) []Shape {
 			{Name: "nlv1-untagged", Class: "lang1", Quick: true, Build: func(*Gen) reflect.Value { return val(nlv("-", "Hello world")) }},
 			{Name: "nlv1-en", Class: "lang1-tagged", Quick: true, Build: func(*Gen) reflect.Value { return val(nlv("en", "Hello")) }},
 			{Name: "nlv2", Class: "lang2+", Quick: true, Build: func(*Gen) reflect.Value { return val(nlv("en", "Hello", "fr", "Bonjour")) }},
+			{Name: "nlv-300", Class: "lang1-long", Build: func(*Gen) reflect.Value { return val(nlv("-", LongText(300))) }},
+			{Name: "nlv-4097", Class: "lang1-long", Build: func(*Gen) reflect.Value { return val(nlv("-", LongText(4097))) }},
+			{Name: "nlv2-long", Class: "lang2+-long", Build: func(*Gen) reflect.Value { return val(nlv("en", LongText(1025), "fr", LongText(513))) }},
 			{Name: "nlv3", Class: "lang2+", Build: func(*Gen) reflect.Value { return val(nlv("en-US", "Hello", "fr", "Bonjour", "zh-Hant", "你好")) }},
 		}
 	case KTime:
 		return []Shape{
 			{Name: "utc-sec", Class: "time", Quick: true, Build: func(*Gen) reflect.Value { return val(T1) }},
 			{Name: "zone+02", Class: "time-zone", Build: func(*Gen) reflect.Value { return val(T1.In(zoneP2)) }},
+			{Name: "pre-epoch", Class: "time-pre-epoch", Build: func(*Gen) reflect.Value { return val(time.Date(1969, 7, 20, 20, 17, 40, 0, time.UTC)) }},
+			{Name: "epoch", Class: "time-epoch", Build: func(*Gen) reflect.Value { return val(time.Unix(0, 0).UTC()) }},
+			{Name: "far-future", Class: "time-far", Build: func(*Gen) reflect.Value { return val(time.Date(2999, 12, 31, 23, 59, 59, 0, time.UTC)) }},
 			{Name: "utc-nanos", Class: "time-nanos", GobOnly: true, Build: func(*Gen) reflect.Value { return val(T1.Add(123456789)) }},
 			{Name: "zone-nanos", Class: "time-nanos", GobOnly: true, Build: func(*Gen) reflect.Value { return val(T1.Add(987654321).In(zoneP2)) }},
 		}
@@ -399,17 +412,23 @@ func Shapes(k Kind) []Shape {
 			{Name: "2.25", Class: "float", Quick: true, Build: func(*Gen) reflect.Value { return val(2.25) }},
 			{Name: "-3.5", Class: "float-negative", Quick: true, Build: func(*Gen) reflect.Value { return val(-3.5) }},
 			{Name: "120", Class: "float", Build: func(*Gen) reflect.Value { return val(120.0) }},
+			{Name: "48.8583701", Class: "float-7-decimals", Build: func(*Gen) reflect.Value { return val(48.8583701) }},
+			{Name: "1e-7", Class: "float-tiny", Build: func(*Gen) reflect.Value { return val(1e-7) }},
+			{Name: "1.5e15", Class: "float-large", Build: func(*Gen) reflect.Value { return val(1.5e15) }},
 		}
 	case KInt:
 		return []Shape{
 			{Name: "3", Class: "int", Quick: true, Build: func(*Gen) reflect.Value { return val(int64(3)) }},
 			{Name: "1", Class: "int", Build: func(*Gen) reflect.Value { return val(int64(1)) }},
 			{Name: "-7", Class: "int-negative", Build: func(*Gen) reflect.Value { return val(int64(-7)) }},
+			{Name: "2^53+1", Class: "int-above-2^53", Build: func(*Gen) reflect.Value { return val(int64(1<<53 + 1)) }},
+			{Name: "max-int64", Class: "int-above-2^53", Build: func(*Gen) reflect.Value { return val(int64(1<<63 - 1)) }},
 		}
 	case KUint:
 		return []Shape{
 			{Name: "3", Class: "uint", Quick: true, Build: func(*Gen) reflect.Value { return val(uint(3)) }},
 			{Name: "1", Class: "uint", Build: func(*Gen) reflect.Value { return val(uint(1)) }},
+			{Name: "2^53+1", Class: "uint-above-2^53", Build: func(*Gen) reflect.Value { return val(uint(1<<53 + 1)) }},
 		}
 	case KBool:
 		return []Shape{{Name: "true", Class: "bool", Quick: true, Build: func(*Gen) reflect.Value { return val(true) }}}
@@ -668,4 +687,167 @@ func WrapForField(f Field, sh Shape) Shape {
 		}
 		return val(ap.ItemCollection{first, it})
 	}}
+}
+
+// LongList is a list of n members with pairwise distinct ids: IRIs with an embedded object with id every 5th, one id-less
+// object at position 2 and (from 9 members on) a second id-less object near the end.
+func LongList(g *Gen, n int) ap.ItemCollection {
+	l := make(ap.ItemCollection, 0, n)
+	for i := 0; i < n; i++ {
+		switch {
+		case i == 2:
+			l = append(l, &ap.Object{Type: ap.NoteType, Name: nlv("-", "anonymous one")})
+		case n > 8 && i == n-2:
+			l = append(l, &ap.Object{Type: ap.NoteType, Name: nlv("-", "anonymous two")})
+		case i%5 == 4:
+			l = append(l, Embedded(ByName("Object"), g, true, true).Interface().(ap.Item))
+		default:
+			l = append(l, g.IRI())
+		}
+	}
+	return l
+}
+
+// LongText is a text of exactly n bytes mixing ASCII with 2-, 3- and 4-byte runes and characters that need escaping.
+func LongText(n int) string {
+	unit := "abc défg € \"q\" 😀 \\n <b>&</b>\n"
+	var b strings.Builder
+	for b.Len() < n {
+		b.WriteString(unit)
+	}
+	s := b.String()
+	// cut on a rune boundary and pad with ASCII to the exact length
+	cut := n
+	for cut > 0 && !utf8.RuneStart(s[cut]) {
+		cut--
+	}
+	return s[:cut] + strings.Repeat("x", n-cut)
+}
+
+// BoundaryStrings returns strings whose interesting character (a 2-, 3- or 4-byte rune, a quote, a line feed) sits at every
+// offset from B-4 to B+1 for every power-of-two boundary B of a buffered or chunked implementation.
+func BoundaryStrings(asciiOnlyAround bool) []struct{ Name, S string } {
+	var out []struct{ Name, S string }
+	specials := []struct{ n, s string }{{"2-byte", "é"}, {"3-byte", "€"}, {"4-byte", "😀"}, {"quote", "\""}, {"LF", "\n"}}
+	if asciiOnlyAround {
+		specials = specials[:3]
+	}
+	for _, B := range []int{64, 256, 512, 1024, 4096} {
+		for off := B - 4; off <= B+1; off++ {
+			for _, sp := range specials {
+				out = append(out, struct{ Name, S string }{fmt.Sprintf("%s@%d", sp.n, off), strings.Repeat("a", off) + sp.s + "zz"})
+			}
+		}
+	}
+	return out
+}
+
+// Degenerate yields, for struct s, every (field, empty-but-non-nil value) together with one other populated property:
+// an empty nested struct, list, language list or endpoints pointer says nothing, and must not make a codec drop its neighbours.
+func Degenerate(s *Struct, codec Codec, fn func(Recipe)) {
+	empty := func(f Field) (Shape, bool) {
+		switch f.Kind {
+		case KItems:
+			return Shape{Name: "empty-list", Class: "empty", Build: func(*Gen) reflect.Value { return val(ap.ItemCollection{}) }}, true
+		case KItem:
+			return Shape{Name: "empty-object", Class: "empty", Build: func(*Gen) reflect.Value {
+				v := reflect.New(tItem).Elem()
+				v.Set(reflect.ValueOf(&ap.Object{}))
+				return v
+			}}, true
+		case KNLV:
+			return Shape{Name: "empty-nlv", Class: "empty", Build: func(*Gen) reflect.Value { return val(ap.NaturalLanguageValues{}) }}, true
+		case KEndpoints:
+			return Shape{Name: "empty-endpoints", Class: "empty", Build: func(*Gen) reflect.Value { return val(&ap.Endpoints{}) }}, true
+		}
+		return Shape{}, false
+	}
+	fs := s.PropertyFields()
+	for _, f := range fs {
+		e, ok := empty(f)
+		if !ok {
+			continue
+		}
+		for _, o := range fs {
+			if o.Index == f.Index {
+				continue
+			}
+			sh := ShapesFor(o, codec, true)
+			if len(sh) == 0 {
+				continue
+			}
+			fn(Recipe{Struct: s, TypeName: s.SpecificName(), Sets: []Set{{f, e}, {o, sh[0]}}})
+		}
+	}
+}
+
+// SharedIdentity yields values in which two different item properties mention the SAME identity (same IRI; IRI and embedded
+// object with that id; lists sharing one member): a codec or helper that de-duplicates across properties shows up here.
+func SharedIdentity(s *Struct, fn func(Recipe)) {
+	fs := s.ItemFields()
+	same := ap.IRI("https://example.com/shared/identity")
+	mk := func(f Field, form int) Shape {
+		return Shape{Name: fmt.Sprintf("shared#%d", form), Class: "shared", Build: func(g *Gen) reflect.Value {
+			var it ap.Item
+			switch form {
+			case 0:
+				it = same
+			case 1:
+				it = &ap.Actor{ID: same, Type: ap.PersonType}
+			default:
+				it = ap.ItemCollection{g.IRI(), same}
+			}
+			if f.Kind == KItems {
+				if col, ok := it.(ap.ItemCollection); ok {
+					return val(col)
+				}
+				return val(ap.ItemCollection{it, g.IRI()})
+			}
+			v := reflect.New(tItem).Elem()
+			v.Set(reflect.ValueOf(it))
+			return v
+		}}
+	}
+	for i := 0; i < len(fs); i++ {
+		for j := i + 1; j < len(fs); j++ {
+			for _, forms := range [][2]int{{0, 0}, {0, 1}, {2, 0}} {
+				fn(Recipe{Struct: s, TypeName: s.SpecificName(), Sets: []Set{{fs[i], mk(fs[i], forms[0])}, {fs[j], mk(fs[j], forms[1])}}})
+			}
+		}
+	}
+}
+
+// Scale yields values with boundary-length strings in the string-bearing positions of a few representative structs.
+func Scale(fn func(Recipe)) {
+	type pos struct{ st, field string }
+	textPos := []pos{{"Object", "Content"}, {"Object", "Name"}, {"Actor", "PreferredUsername"}, {"Link", "Name"}}
+	for _, bs := range BoundaryStrings(false) {
+		bs := bs
+		for _, p := range textPos {
+			st := ByName(p.st)
+			f := *st.Field(p.field)
+			fn(Recipe{Struct: st, TypeName: st.SpecificName(), Sets: []Set{{f, Shape{Name: "text:" + bs.Name, Class: "lang1-boundary", Build: func(*Gen) reflect.Value { return val(nlv("-", bs.S)) }}}}})
+			fn(Recipe{Struct: st, TypeName: st.SpecificName(), Sets: []Set{{f, Shape{Name: "maptext:" + bs.Name, Class: "lang2+-boundary", Build: func(*Gen) reflect.Value { return val(nlv("en", "short", "fr", bs.S)) }}}}})
+		}
+	}
+	strPos := []pos{{"Object", "MediaType"}, {"Place", "Units"}, {"Link", "HrefLang"}, {"Tombstone", "FormerType"}, {"Object", "URL"}, {"Link", "Href"}, {"Actor", "Inbox"}}
+	for _, bs := range BoundaryStrings(true) {
+		bs := bs
+		for _, p := range strPos {
+			st := ByName(p.st)
+			f := *st.Field(p.field)
+			fn(Recipe{Struct: st, TypeName: st.SpecificName(), Sets: []Set{{f, Shape{Name: "str:" + bs.Name, Class: "string-boundary", Build: func(*Gen) reflect.Value {
+				s := bs.S
+				switch f.Kind {
+				case KItem:
+					v := reflect.New(tItem).Elem()
+					v.Set(reflect.ValueOf(ap.IRI("https://example.com/" + s)))
+					return v
+				case KIRI:
+					return val(ap.IRI("https://example.com/" + s))
+				}
+				return reflect.ValueOf(s).Convert(f.Type)
+			}}}}})
+		}
+	}
 }
